@@ -39,6 +39,8 @@ type World struct {
 	pureDecls  map[string]string
 	pureOrder  []string
 	initReach  map[string]map[*ssa.Function]bool
+	specCore   string
+	lemmaTerms []Term
 	writesBusy map[string]bool
 	funcIDs    map[string]int
 	specText   string // cached SMT text of spec definitions
@@ -365,16 +367,21 @@ func (w *World) SpecDefs() (string, error) {
 			return "", err
 		}
 	}
-	// user axioms
+	// user axioms and lemmas (a lemma is proved in isolation — see LemmaObligations — from the definitions and the lemmas
+	// before it, and is then available everywhere)
+	w.specCore = decls.String() + defs.String() + axioms.String()
+	var lem strings.Builder
+	w.lemmaTerms = nil
 	for _, ax := range w.cs.Axioms {
 		env := &Env{w: w, pkg: w.typePkgs["url"], vars: map[string]EV{}}
 		t, err := env.EvalBool(ax.Expr)
 		if err != nil {
 			return "", fmt.Errorf("%s:%d: axiom %s: %v", ax.File, ax.Line, ax.Name, err)
 		}
-		fmt.Fprintf(&axioms, "; axiom %s\n(assert %s)\n", ax.Name, t)
+		fmt.Fprintf(&lem, "; %s\n(assert %s)\n", ax.Name, t)
+		w.lemmaTerms = append(w.lemmaTerms, t)
 	}
-	w.specText = decls.String() + defs.String() + axioms.String()
+	w.specText = w.specCore + lem.String()
 	return w.specText, nil
 }
 
